@@ -2,6 +2,7 @@
   TE.Driver.Shape — protocol adapters for C18.
     fn chk.<python helper name> k=v …   → ok | err <Kind>     the GENERATED check (TE/Gen/Shapes.lean) on the shapes sent
     fn valid.<stem> k=v …               → ok true|false        the documented contract `Valid_<stem>` (TE/Spec/Shape.lean)
+    fn ctor.verdicts                    → ok Class|helper|ok;Class|helper|err;…   TE/Gen/Defaults.lean `defaultVerdicts` (C03)
     fn gap.names                        → ok stem::name|name;;stem::…   all pattern names
     fn gap.<stem> k=v …                 → ok <name;name;…|->       names of the gap patterns `patterns_<stem>` that match
   value tokens (no ':' so the generic parser keeps them as strings): `T2x3` shape (`T` = 0-dim), `none`,
@@ -10,6 +11,7 @@
 import TE.Driver.Fam
 import TE.Gen.Shapes
 import TE.Spec.Shape
+import TE.Gen.Defaults
 namespace TE.Driver
 open TE TE.Shape
 
@@ -17,6 +19,13 @@ def toCallArgs (a : Args) : CallArgs :=
   a.filterMap fun (k, v) => match v with
     | .s x => some (k, x)
     | _ => none
+
+def ctorVerdicts (_ : Args) : Except Err String :=
+  .ok (";".intercalate (Gen.defaultVerdicts.map fun (v : String × String × Res) =>
+    v.1 ++ "|" ++ v.2.1 ++ "|" ++ (if v.2.2 == Res.ok then "ok" else "err")))
+
+def gapNamesFn (_ : Args) : Except Err String :=
+  .ok (";;".intercalate (ShapeSpec.gapNames.map fun (p : String × List String) => p.1 ++ "::" ++ "|".intercalate p.2))
 
 def shapeFns : List (String × (Args → Except Err String)) :=
   Gen.dispatch.map (fun (n, f) => ("chk." ++ n, fun a =>
@@ -27,6 +36,6 @@ def shapeFns : List (String × (Args → Except Err String)) :=
   ++ ShapeSpec.gapTable.map (fun (n, f) => ("gap." ++ n, fun a =>
     let ms := f (toCallArgs a)
     .ok (if ms.isEmpty then "-" else ";".intercalate ms)))
-  ++ [("gap.names", fun _ => .ok (";;".intercalate (ShapeSpec.gapNames.map fun (st, ns) => st ++ "::" ++ "|".intercalate ns)))]
+  ++ [("ctor.verdicts", ctorVerdicts), ("gap.names", gapNamesFn)]
 
 end TE.Driver
